@@ -26,6 +26,45 @@ def _parse(text):
     return d
 
 
+def _only_scalar_sum_dtype(real, model, chunk):
+    """The model documents one approximation (Core/Simulate.lean, KNOWN APPROXIMATIONS): the group sum of a scalar (the
+    result of a rule without column arguments; an object array in reality) gets the dtype of the scalar.  A system whose
+    outputs differ ONLY in the dtype label of such a column (same values) is not counted as a disagreement."""
+    import re
+    if not model or len(real) != len(model):
+        return False
+    scalar_rules = set()
+    sigs = {mm.group(1): [a.strip() for a in mm.group(2).split(",") if a.strip()]
+            for mm in re.finditer(r"^def (\w+)\(([^)]*)\)", chunk, flags=re.M)}
+    changed = True
+    while changed:      # scalars: rules all of whose arguments are parameters or (time-unit variants of) scalars
+        changed = False
+        for n, args in sigs.items():
+            if n not in scalar_rules and all(
+                    a.endswith("_params") or a in scalar_rules
+                    or re.sub(r"_[ymwd]$", "", a) in {re.sub(r"_[ymwd]$", "", x) for x in scalar_rules} for a in args):
+                scalar_rules.add(n)
+                changed = True
+    for a, b in zip(real, model):
+        if a == b:
+            continue
+        ma = re.fullmatch(r"\s*(\S+): (\w+) \[(.*)\]", a)
+        mb = re.fullmatch(r"\s*(\S+): (\w+) \[(.*)\]", b)
+        if not ma or not mb or ma.group(1) != mb.group(1):
+            return False
+        name = ma.group(1)
+        if not any(name.startswith(r + "_") for r in scalar_rules):
+            return False
+        try:
+            va = [float(x) for x in ma.group(3).split(",") if x.strip()]
+            vb = [float(x) for x in mb.group(3).split(",") if x.strip()]
+        except ValueError:
+            return False
+        if va != vb:
+            return False
+    return True
+
+
 def run_t3(run: common.Run, seed: int, n: int, label="T3"):
     common.ensure_driver()
     rc, out = common.lake(["build", "GettsimVerif.Core.Simulate"])
@@ -46,15 +85,20 @@ def run_t3(run: common.Run, seed: int, n: int, label="T3"):
     r, m = _parse(real), _parse(model)
     bad = []
     kinds = {}
+    approx = 0
     for k, lines in r.items():
         key = lines[0].strip() if lines and "ERROR" in lines[0] else "ok"
         kinds[key] = kinds.get(key, 0) + 1
         run.case({"t3": seed, "sys": k, "real": lines})
         run.traces += 1
         if lines != m.get(k):
+            if _only_scalar_sum_dtype(lines, m.get(k), src.split(f"### {k}\n", 1)[-1].split("### sys", 1)[0]):
+                approx += 1
+                continue
             bad.append({"system": k, "real": lines[:6], "model": (m.get(k) or ["<no output>"])[:6]})
     run.extra.setdefault("correspondence", {})[f"{label}: toy tax systems, compute_taxes_and_transfers vs Simulate.simulate"] = {
-        "systems": len(r), "disagreements": len(bad), "outcomes": kinds}
+        "systems": len(r), "disagreements": len(bad), "outcomes": kinds,
+        "documented_approximation_group_sum_of_a_scalar": approx}
     if bad:
         # attach the source of the first disagreeing system
         first = bad[0]["system"]
